@@ -777,6 +777,11 @@ impl Walrus {
                 });
                 planned_bytes += (end - cur_off) as usize;
             }
+            if end > cur_off && end < block.used {
+                // The budget ends inside this sealed block: later blocks and the tail must not
+                // be planned, otherwise the cursor commit would jump over the unread remainder.
+                break;
+            }
             cur_idx += 1;
             cur_off = 0;
         }
